@@ -39,3 +39,8 @@ for cl in classes.ALG_CLASSES:
                 break
         if not ok:
             print("# no failing witness for property=%s class=%s" % (p, cl.id), file=sys.stderr)
+
+# a finding about a data race: its witness only fails under the race detector (the check replays it with the -race harness)
+_w = {"op": "batchrace", "in": {"table": [{"k": "batch", "opaque": True, "es": [{"k": "execute", "n": i} for i in range(8)]}],
+                                "steps": [{"e": 0, "ctx": c()}, {"e": 0, "ctx": c()}, {"e": 0, "ctx": c()}], "ci": False}}
+print("finding: property=C09 class=batch_members_execute_embedded_commands witness=%s :: %s" % (json.dumps(_w, ensure_ascii=False), classes.BY_ID["batch_members_execute_embedded_commands"].what))
